@@ -5,6 +5,7 @@ use litep2p::{
     config::ConfigBuilder,
     crypto::ed25519::{Keypair, SecretKey},
     transport::tcp::config::Config as TcpConfig,
+    transport::websocket::config::Config as WsConfig,
     PeerId,
 };
 use multiaddr::Multiaddr;
@@ -50,6 +51,26 @@ pub fn listen_addr(i: usize) -> Multiaddr {
     format!("/ip4/10.0.0.{i}/tcp/{}", port(i)).parse().unwrap()
 }
 
+/// WebSocket listen port of node `i` (below SimNet's ephemeral range, distinct from the TCP port)
+pub fn ws_port(i: usize) -> u16 {
+    31000 + i as u16
+}
+
+/// `/ip4/10.0.0.i/tcp/3100i/ws`
+pub fn ws_listen_addr(i: usize) -> Multiaddr {
+    format!("/ip4/10.0.0.{i}/tcp/{}/ws", ws_port(i)).parse().unwrap()
+}
+
+/// WebSocket listen address with `/p2p/<peer>` appended
+pub fn ws_full_addr(seed: u64, i: usize) -> Multiaddr {
+    ws_listen_addr(i).with(multiaddr::Protocol::P2p(peer_id(seed, i).into()))
+}
+
+/// does node `i` run the WebSocket transport next to TCP in this run (`knobs["ws_nodes"]`)
+pub fn has_ws(knobs: &Value, i: usize) -> bool {
+    knobs["ws_nodes"].as_array().is_some_and(|a| a.iter().any(|x| x.as_u64() == Some(i as u64)))
+}
+
 /// listen address with `/p2p/<peer>` appended
 pub fn full_addr(seed: u64, i: usize) -> Multiaddr {
     listen_addr(i).with(multiaddr::Protocol::P2p(peer_id(seed, i).into()))
@@ -82,6 +103,17 @@ pub fn base_config(handle: &Handle, seed: u64, i: usize, knobs: &Value) -> Confi
     if let Some(w) = knobs["yamux_split"].as_u64() {
         yamux.set_split_send_size(w as usize);
     }
+    let ws = has_ws(knobs, i).then(|| WsConfig {
+        listen_addresses: vec![ws_listen_addr(i)],
+        reuse_port: true,
+        nodelay: false,
+        yamux_config: yamux.clone(),
+        noise_read_ahead_frame_count: knobs["noise_read_ahead"].as_u64().unwrap_or(5) as usize,
+        noise_write_buffer_size: knobs["noise_write_buffer"].as_u64().unwrap_or(2) as usize,
+        connection_open_timeout: ms(knobs, "conn_open_timeout_ms", 10_000),
+        substream_open_timeout: ms(knobs, "substream_open_timeout_ms", 5_000),
+        max_parallel_dials: knobs["max_parallel_dials"].as_u64().unwrap_or(8) as usize,
+    });
     let tcp = TcpConfig {
         listen_addresses: vec![listen_addr(i)],
         reuse_port: true,
@@ -99,6 +131,9 @@ pub fn base_config(handle: &Handle, seed: u64, i: usize, knobs: &Value) -> Confi
         .with_executor(Arc::new(SimExecutor { node: i, handle: handle.clone() }))
         .with_tcp(tcp)
         .with_keep_alive_timeout(ms(knobs, "keep_alive_ms", 5_000));
+    if let Some(ws) = ws {
+        b = b.with_websocket(ws);
+    }
     if let Some(n) = knobs["max_parallel_dials"].as_u64() {
         b = b.with_max_parallel_dials(n as usize);
     }
